@@ -318,7 +318,9 @@ def bfs(ctx, case):
         frontier = nxt
         depth += 1
     ctx.count("bfs_states", len(seen))
-    ctx.extra[f"bfs_deepest_completed_level:{cls}"] = max(ctx.extra.get(f"bfs_deepest_completed_level:{cls}", 0), done_levels + 1)
+    # history length (incl. the first op) up to which the enumeration was complete, minimum over the first ops of this class
+    k = f"min:bfs_complete_history_length:{cls}"
+    ctx.extra[k] = min(ctx.extra.get(k, done_levels + 1), done_levels + 1)
     ctx.extra["states"] = ctx.extra.get("states", 0) + len(seen)
     ctx.extra["transitions"] = ctx.extra.get("transitions", 0) + trans
     ctx.sample({"kind": "bfs", "class": cls, "first_op": case["first"], "states": len(seen), "transitions": trans, "completed_depth_after_first_op": done_levels, "example_history": frontier[0] if frontier else None}, cap=1)
